@@ -254,12 +254,21 @@ func TestC06(t *testing.T) {
 				}
 			}
 			planted := "none"
-			if len(tagLines) > 0 && rapid.IntRange(0, 5).Draw(rt, "plant") != 0 {
+			nFaults := rapid.IntRange(0, 5).Draw(rt, "plant")
+			if nFaults > 2 {
+				nFaults = 1
+			}
+			for q := 0; q < nFaults && len(tagLines) > 0; q++ {
+				// one or two faults: whichever is reached first decides the diagnostic
 				at := tagLines[rapid.IntRange(0, len(tagLines)-1).Draw(rt, "at")]
 				f := rapid.SampledFrom(c06Faults).Draw(rt, "fault")
 				ind := lines[at][:len(lines[at])-len(strings.TrimLeft(lines[at], " "))]
 				lines[at] = ind + "দেখাও " + f.expr + ";"
-				planted = f.kind
+				if planted == "none" {
+					planted = f.kind
+				} else {
+					planted = "two-faults"
+				}
 			}
 			pre := c06Prelude
 			if rapid.Bool().Draw(rt, "multiLinePrelude") {
